@@ -4,7 +4,7 @@
    the typed elements built from the blocks, KyGananciasSolares.txt and NewBDL_O.tbl are covered by
    the correspondence only. *)
 From Coq Require Import NArith QArith Bool List String.
-From CTE Require Import Model.Bdl Model.BdlDoc Model.Kyg Model.Tbl Model.BdlTyped Model.BdlTypedEnv Proofs.BdlP Proofs.BdlPreambleP Proofs.KygP Proofs.TblP Proofs.BdlTypedP.
+From CTE Require Import Model.Bdl Model.BdlDoc Model.Kyg Model.Tbl Model.BdlTyped Model.BdlTypedEnv Model.BdlTypedDb Proofs.BdlP Proofs.BdlPreambleP Proofs.KygP Proofs.TblP Proofs.BdlTypedP Proofs.BdlTypedDbP.
 Import ListNotations.
 
 (* layout never matters: indentation, trailing blanks, CR before LF, blank lines, comment and LIDER
@@ -87,6 +87,47 @@ Proof. exact floor_defaults. Qed.
 Theorem C18_wall_written_tilt_wins : forall b w tk, wall_of b = Ok w -> get_num "TILT" (b_attrs b) = Some tk -> twl_tilt w = NTok tk.
 Proof. exact wall_written_tilt_wins. Qed.
 
+(* lists: every name of a written list of quoted names, and every number of a written list of numbers, comes
+   back in order, for any number of items, blanks inside the parentheses and white space (line breaks included:
+   a multi-line list is joined before it is typed) around the commas *)
+Theorem C18_names_list_recovered : forall lead trail g1 g2 ns,
+  forallb (N.eqb 32) lead = true -> forallb (N.eqb 32) trail = true -> all_wsb g1 = true -> all_wsb g2 = true ->
+  forallb name_item_ok ns = true ->
+  namesvec (list_text lead trail g1 g2 (map quoted ns)) = ns.
+Proof. exact names_list_recovered. Qed.
+Theorem C18_number_list_recovered : forall lead trail g1 g2 ts,
+  forallb (N.eqb 32) lead = true -> forallb (N.eqb 32) trail = true -> all_wsb g1 = true -> all_wsb g2 = true ->
+  ts <> [] -> forallb num_item_ok ts = true ->
+  f32vec (list_text lead trail g1 g2 ts) = Some ts.
+Proof. exact number_list_recovered. Qed.
+(* LAYERS: the materials and the thicknesses written come back item by item (an air gap takes the thickness in
+   its name, HULC writing a placeholder for it) *)
+Theorem C18_layers_recovered : forall b lead trail g1 g2 lead' trail' g1' g2' ns ts,
+  forallb (N.eqb 32) lead = true -> forallb (N.eqb 32) trail = true -> all_wsb g1 = true -> all_wsb g2 = true ->
+  forallb (N.eqb 32) lead' = true -> forallb (N.eqb 32) trail' = true -> all_wsb g1' = true -> all_wsb g2' = true ->
+  forallb name_item_ok ns = true -> ts <> [] -> forallb num_item_ok ts = true -> List.length ns = List.length ts ->
+  get_text "MATERIAL" (b_attrs b) = Some (list_text lead trail g1 g2 (map quoted ns)) ->
+  get_text "THICKNESS" (b_attrs b) = Some (list_text lead' trail' g1' g2' ts) ->
+  exists w, wallcons_of b = Ok w /\ twc_name w = b_name b /\ twc_material w = ns /\
+            twc_thickness w = zip_with fixed_thickness ns ts.
+Proof. exact layers_recovered. Qed.
+(* the wall constructions of the database: a name that is a construction's gives the layers that construction
+   refers to under the construction's name with the construction's absorptance; a name that is a layers
+   definition's gives those layers with the default absorptance 0.6; of two definitions under one name the
+   one written last is found *)
+Theorem C18_wallcons_by_construction : forall ls cs n c l,
+  last_by twc_name n ls = None -> str_eqb n (s2l "Ninguno") = false ->
+  last_by tcn_name n cs = Some c -> last_by twc_name (tcn_layers c) ls = Some l ->
+  wallcons_lookup ls cs n = Some (mkTWC n (twc_group l) (twc_material l) (twc_thickness l), tcn_absorptance c).
+Proof. exact wallcons_by_construction. Qed.
+Theorem C18_wallcons_by_layers : forall ls cs n l,
+  last_by twc_name n ls = Some l -> wallcons_lookup ls cs n = Some (l, NConst (6 # 10)).
+Proof. exact wallcons_by_layers. Qed.
+Theorem C18_last_definition_wins : forall (l1 l2 : list twallcons) x,
+  forallb (fun y => negb (str_eqb (twc_name y) (twc_name x))) l2 = true ->
+  last_by twc_name (twc_name x) (l1 ++ x :: l2) = Some x.
+Proof. exact (@last_definition_wins twallcons twc_name). Qed.
+
 (* NewBDL_O.tbl: an element / a space written as a name line and a values line (any blanks in front of the
    values) is read back value by value *)
 Theorem C18_tbl_element_roundtrip : forall e s1 s2 pre, wf_telem e s1 s2 = true -> all_wsb pre = true ->
@@ -137,3 +178,14 @@ Example C18_kyg_example :
                 (Some (s2l "0.79", s2l "-1.00", s2l "1.00", s2l "50.00", s2l "PVC 2"))) = true /\
   wf_kwall (mkKW (s2l "P01_E01_ME001") (s2l "30,00") (s2l "0,30") (s2l "1E0") None) = true.
 Proof. split; vm_compute; reflexivity. Qed.
+
+(* non-vacuity of the list theorems: a three-name list broken over two lines and a list of numbers with
+   exponents meet their hypotheses, and the readers give the items *)
+Example C18_lists_example :
+  let ns := [s2l "Cámara de aire sin ventilar vertical 2 cm"; s2l "1/2 pie LP [80 mm< G < 100 mm]"; s2l "MW Lana mineral [0.04 W/[mK]]"] in
+  let ts := [s2l "0.05"; s2l "1.15E-01"; s2l ".04"] in
+  forallb name_item_ok ns = true /\ forallb num_item_ok ts = true /\
+  namesvec (list_text (s2l " ") [] [] [10%N; 32%N; 32%N] (map quoted ns)) = ns /\
+  f32vec (list_text [] (s2l " ") [] (s2l " ") ts) = Some ts /\
+  zip_with fixed_thickness ns ts = [NConst (2 # 100); NTok (s2l "1.15E-01"); NTok (s2l ".04")].
+Proof. vm_compute. repeat split; reflexivity. Qed.
